@@ -704,6 +704,10 @@ func (r *Run) replay(cexPath string, cf cexFile) string {
 		return "REPLAY-ERROR: " + err.Error()
 	}
 	os.WriteFile(strings.TrimSuffix(cexPath, ".json")+".replay.txt", []byte(out), 0o644)
+	return r.replayVerdict(out, cf)
+}
+
+func (r *Run) replayVerdict(out string, cf cexFile) string {
 	if strings.Contains(out, "VERIF-DESYNC") {
 		return "NOT-REPRODUCED(desync)"
 	}
